@@ -222,6 +222,24 @@ def formulas(ctx, prog, rule):
     want_si = {tuple(sorted(("arg1.ScaledInteger.0", "arg2.ScaledInteger.scale"))): 1.0, ("arg2.ScaledInteger.offset",): 1.0}
     ok = want_si in oks and "arg1.Single.0" in oks and "arg1.Double.0" in oks and "arg1.Integer.0" in oks and len(oks) == 4
     ctx.ob(rule, "formula/RecordValue::to_f64", ok, "to_f64 results %s (must be value, value, raw*scale+offset, value)" % oks)
+    # RecordValue::to_i64 (row / column / return index, invalid states): the stored integer itself, never through a float
+    ti = prog.fn("record::RecordValue::to_i64")
+    ctx.fn_seen(ti)
+    Ri = Resolver(ti)
+    oki, vals = True, []
+    for bi, si, cls, payload in ti.ret_assignments():
+        if cls == "ok":
+            v = strip(Ri.rvalue(payload))[2][0]
+            for a in (strip(v)[1] if strip(v)[0] == "phi" else (v,)):
+                a = strip(a)
+                while a[0] == "cast" and a[1] == "i64":
+                    a = strip(a[2])
+                vals.append(tree_str(strip_deep(a))[:80])
+                oki = oki and a[0] == "field" and strip(a[1]) == ("param", 1) and a[2] in ("Integer.0", "ScaledInteger.0")
+        elif cls not in ("err",):
+            oki = False
+            vals.append("<%s>" % cls)
+    ctx.ob(rule, "formula/RecordValue::to_i64", oki and bool(vals), "to_i64 results %s (must be the stored integer payload itself: 64-bit integers do not survive a detour through f64)" % vals)
 
 
 # ----------------------------------------------------------------------------------------
